@@ -63,7 +63,7 @@ def main(ctx):
     for profile in profiles:   # VERIF_PROFILES=release restricts a development / mutation run to one build
         bindir = ctx.harness(GROUP, profile=profile, bins=["c34"], hooks=False)
         if inputs is None:
-            rc, out = vf.sh([os.path.join(bindir, "c34"), "gen", str(ctx.seed), str(ctx.n(600, 30000)), ctx.tier], timeout=600)
+            rc, out = vf.sh([os.path.join(bindir, "c34"), "gen", str(ctx.seed), str(ctx.n(600, 12000)), ctx.tier], timeout=600)
             if rc != 0:
                 raise vf.CheckerBroken("c34 gen failed: " + out[-400:])
             inputs = [l for l in out.split("\n") if l.strip()]
